@@ -266,7 +266,16 @@ fn body_built(ch: &Ch) -> Run {
   }
   // a second importer enters the chain in the middle
   let mid = ch.shape("second_entry", 3); // none, r1, r2
-  let mut root_src = "import \"./r0.js\";\n".to_string();
+  // how the head is imported: plainly; or as a text asset by one module and as
+  // a module by its sibling (the module load is deferred behind the asset load)
+  let asset_sibling = ch.flag("head_imported_as_text_by_one_module_and_as_module_by_a_sibling");
+  let mut root_src = if asset_sibling {
+    loader.add_text("https://x/as_text.ts", "import t from \"./r0.js\" with { type: \"text\" };\n");
+    loader.add_text("https://x/as_module.ts", "import \"./r0.js\";\n");
+    "import \"./as_text.ts\";\nimport \"./as_module.ts\";\n".to_string()
+  } else {
+    "import \"./r0.js\";\n".to_string()
+  };
   if mid > 0 {
     root_src.push_str(&format!("import \"./r{mid}.js\";\n"));
   }
@@ -279,12 +288,25 @@ fn body_built(ch: &Ch) -> Run {
     &mut graph,
     vec![url("https://x/root.ts")],
     &loader,
-    BuildCfg::default(),
+    BuildCfg {
+      unstable_text: true,
+      ..Default::default()
+    },
     ch,
   ) {
     run.violate("build-did-not-finish", format!("{e:?}"), desc.clone());
   }
+  let desc = json!({"redirects": desc, "head_imported_as_text_by_one_module_and_as_module_by_a_sibling": asset_sibling});
+  let before = run.violations.len();
   let checks = check_lookups(&graph, &extra, shape_class, &mut run);
+  for v in run.violations.iter_mut().skip(before) {
+    v.detail = json!({"world": desc, "lookup": v.detail});
+  }
+  // nothing unfinished either
+  let pending = obs(&graph)["pending_slots"].clone();
+  if pending.as_array().is_some_and(|a| !a.is_empty()) {
+    run.violate(format!("unfinished-entry@{shape_class}"), format!("the built graph holds unfinished entries {pending}"), desc.clone());
+  }
   run.evals = checks as u64;
   run.state_key = hash_json(&json!([desc, mid]));
   run.nontrivial = !graph.redirects.is_empty();
